@@ -40,6 +40,9 @@ func (t *token) Replace(sym, newSym, newText string) {
 }
 
 func (t *token) String() string {
+	if t == nil {
+		return "<missing>"
+	}
 	if len(t.Tokens) > 0 {
 		var tt []string
 		for _, v := range t.Tokens {
